@@ -106,11 +106,45 @@ def run_conform(chk, pairs, maxlen, timeout, label):
     return st, kinds, cases
 
 
+def pinned(chk):
+    """re-run the pinned witness of every known finding of this property on the real binary"""
+    import os, shutil
+    from common import ROOT
+    for k in chk.known:
+        w = k.get('witness', {})
+        if w.get('kind') != 'endhooks':
+            continue
+        src = open(os.path.join(ROOT, w['program'])).read()
+        progs = runner.compile_programs([(w['program'], src, w['args'])])
+        root = runner.scratch_dir()
+        try:
+            runner.build_programs(progs, root)
+            if progs[0].bin:
+                steps, status = mc.replay_hist(progs[0], w['history'])
+                at_end = [h['n'] for c, evs in steps if c == 256 for e in evs for h in e.get('hooks', [])]
+                if status == 'ok' and at_end == w['observed_hooks_at_end']:
+                    chk.known_hits.append((k['id'], 'pinned witness %s %s history %s: end() calls %s (prescribed: %s)'
+                                           % (w['program'], w['args'], w['history'], at_end, w['prescribed_hooks_at_end'])))
+        finally:
+            shutil.rmtree(root, ignore_errors=True)
+
+
 def run(tier, seed):
     chk = Check('C01', tier, seed, 'model_checking')
+    pinned(chk)
     rng = random.Random(seed * 7919 + 1)
     quick = tier != 'thorough'
-    items, asts = gen_items(rng, 140 if quick else 1200, FEATURES | {'yield', 'end'})
+    items, asts = gen_items(rng, 260 if quick else 1200, FEATURES | {'yield', 'end'})
+    # targeted families: structured foreach bodies, result-code runs
+    for i in range(40 if quick else 300):
+        sd = rng.randrange(1 << 30)
+        if i % 4 == 3:
+            ast, src = genprog.gen_protocol_program(sd)
+            items.append(('proto:%d' % sd, src, [rng.choice(['-O0', '-O1', '-O3']), '-fyield-support']))
+        else:
+            ast, src = genprog.gen_foreach_program(sd)
+            items.append(('foreach:%d' % sd, src, [rng.choice(['-O0', '-O1', '-O2', '-O3'])]))
+        asts.append(ast)
     progs = runner.compile_programs(items, want=('machine', 'codegen'))
     pairs = [(p, a) for p, a in zip(progs, asts) if p.ok]
     st, kinds, cases = run_conform(chk, pairs, 10 if quick else 14, 1600 if quick else 9000, 'generated')
